@@ -6,6 +6,7 @@
 //!   hsim show     <prop> <tier> <seed> <index>
 //!   hsim hashes   <prop> <tier> <seed> <start> <count>
 //!   hsim list
+#![allow(dead_code)] // the analysis layer offers more accessors than every oracle uses
 mod actors;
 mod analysis;
 mod calib;
@@ -18,7 +19,7 @@ mod minimise;
 mod model;
 mod props;
 
-use analysis::{View, Violation};
+use analysis::View;
 use model::*;
 use serde::{Deserialize, Serialize};
 use std::collections::{BTreeMap, BTreeSet};
